@@ -26,7 +26,7 @@
                         SParse, SOrig k (get_orig_text(T) of the elements of the k-th result); edits_of / apply_edits *)
 From Coq Require Import ZArith List Bool.
 From AK Require Import Common.Err LLP.Base LLP.Parse LLP.Build gen.C04_Consts
-  C04.Model C04.LemmasText C04.LemmasLex C04.LemmasCover C04.LemmasTree C04.LemmasConc C04.LemmasNode C04.LemmasOps C04.Session C04.LemmasSess C04.Run.
+  C04.Model C04.LemmasText C04.LemmasLex C04.LemmasCover C04.LemmasTree C04.LemmasConc C04.LemmasNode C04.LemmasOps C04.Session C04.LemmasSess C04.LemmasBig C04.Run.
 Import ListNotations.
 Open Scope Z_scope.
 
@@ -544,3 +544,63 @@ Example witness_iterator_twice :
   end.
 Proof. vm_compute. repeat split. Qed.
 Print Assumptions witness_iterator_twice.
+
+(* ------------------------------------------------------------------ round 4: magnitudes and the first character *)
+(* two positions on ONE line - whatever its number, whatever the columns: get_orig_text is the slice of that line
+   and has c1 - c0 characters (the seeded change C04-m7 took the several-lines branch for lines beyond 257) *)
+Theorem orig_text_one_line : forall lines l c0 c1,
+  (l < length lines)%nat -> (c0 <= c1)%nat -> (c1 <= length (nth l lines []))%nat ->
+  get_orig_text lines (P l c0, P l c1) = Ok (slice (nth l lines []) c0 c1)
+  /\ length (slice (nth l lines []) c0 c1) = (c1 - c0)%nat.
+Proof. exact orig_text_one_line_l. Qed.
+Print Assumptions orig_text_one_line.
+
+(* a str is tokenized as the list of its rstrip()ped lines; every line the tokenizer sees - the first one included -
+   is a PREFIX of the line get_orig_text (and the caller) sees: nothing is removed in front, columns agree
+   (the seeded change C04-m8 dropped a leading U+FEFF of a str) *)
+Theorem str_is_its_stripped_lines : forall s,
+  tok_lines (IStr s) = tok_lines (ILines (map rstrip (split_nl s)))
+  /\ Forall2 prefix_of (tok_lines (IStr s)) (orig_lines (IStr s))
+  /\ exists l0 rest, split_nl s = l0 :: rest /\ tok_lines (IStr s) = rstrip l0 :: map rstrip rest.
+Proof. exact str_is_its_stripped_lines_l. Qed.
+Print Assumptions str_is_its_stripped_lines.
+
+(* 299 empty lines, then " ab 12": the leaves of line 300 *)
+Example witness_line_300 :
+  let inp := IStr (repeat 10 299 ++ [32;97;98;32;49;50]) in
+  match cfg_tokenize demo_cfg (tok_lines inp) with
+  | LOk [_; ab; _; n; e] =>
+      (tstart ab, tend ab) = ((300, 2), (300, 4)) /\ get_orig_text (orig_lines inp) (tstart ab, tend ab) = Ok [97;98]
+      /\ (tstart n, tend n) = ((300, 5), (300, 7)) /\ get_orig_text (orig_lines inp) (tstart n, tend n) = Ok [49;50]
+  | _ => False
+  end.
+Proof. vm_compute. repeat split; reflexivity. Qed.
+Print Assumptions witness_line_300.
+
+(* 299 blanks, then "ab": columns 300..302 *)
+Example witness_column_300 :
+  let inp := ILines [repeat 32 299 ++ [97;98]] in
+  match cfg_tokenize demo_cfg (tok_lines inp) with
+  | LOk [_; ab; e] =>
+      (tstart ab, tend ab) = ((1, 300), (1, 302)) /\ get_orig_text (orig_lines inp) (tstart ab, tend ab) = Ok [97;98]
+  | _ => False
+  end.
+Proof. vm_compute. repeat split; reflexivity. Qed.
+Print Assumptions witness_column_300.
+
+(* U+FEFF in front of "ab".  No pattern matches it: LexicalError on line 1 (0-based column 0), for the str and for the
+   list of lines alike.  A pattern matches it (uni_cfg: [U+0080-U+FFFD]+): it is a token at (1,1)..(1,2) and 'ab' sits
+   at (1,2)..(1,4), where the caller's text has it *)
+Definition uni_cfg : lexcfg :=
+  mkCfg [([83;80;65;67;69], PSpace); ([85;78;73], PRange 128 65533); ([87;79;82;68], PRange 97 122)] [] [] [].
+
+Example witness_leading_bom :
+  cfg_tokenize demo_cfg (tok_lines (IStr [65279;97;98])) = LErr (1, 0) [65279;97;98] false
+  /\ cfg_tokenize demo_cfg (tok_lines (ILines [[65279;97;98]])) = LErr (1, 0) [65279;97;98] false
+  /\ match cfg_tokenize uni_cfg (tok_lines (IStr [65279;97;98])) with
+     | LOk [b; ab; _] => (tstart b, tend b) = ((1, 1), (1, 2)) /\ (tstart ab, tend ab) = ((1, 2), (1, 4))
+         /\ get_orig_text (orig_lines (IStr [65279;97;98])) (tstart ab, tend ab) = Ok [97;98]
+     | _ => False
+     end.
+Proof. vm_compute. repeat split; reflexivity. Qed.
+Print Assumptions witness_leading_bom.
